@@ -188,12 +188,36 @@ def abs_claims(ctx):
                 lattice_best = r['lattice_best']
                 max_dist, max_dist_init, min_logprob_norm = r['mt'].max_dist, r['mt'].max_dist_init, r['mt'].min_logprob_norm
             cl += [(f"op{i}:{nm}", f) for nm, f in LL.c05_cutoff_claims(V, ctx['cfg'])]
+            cl += [(f"op{i}:{nm}", f) for nm, f in position_claims(r['mp'], r['mt'], ctx['cfg'], r['lattice_best'])]
+    return cl
+
+
+def position_claims(mp, mt, cfg, lb):
+    """Abstract-geometry form of 'the reported position is the nearest point of THAT edge': the state's segment runs between the
+    map's two node locations, and the reported distance / matched point / relative position are the ones the map's kernel returns
+    for (observation, that segment) - also for states created by continue_with_distance jumps."""
+    from symx.absmap import pname
+    pm = LL.PathModel(mp, mt, cfg)
+    cl = []
+    for i, m in enumerate(lb):
+        st = LL.state_of(m)
+        canon = getattr(mp, 'canon', None) or {}
+        if isinstance(st, tuple):
+            ends = (pname(m.edge_m.p1), pname(m.edge_m.p2))
+            want = (f"n{canon.get(st[0], st[0])}", f"n{canon.get(st[1], st[1])}")
+            cl.append((f'segment_of_[{i}:{m.label}]_runs_between_its_nodes', z3.BoolVal(ends == want)))
+        q, pt_m, pt_o, ti = pm.geo(st, m.obs, m.obs_ne)
+        cl.append((f'reported_distance_of_[{i}:{m.label}]_is_the_distance_to_that_state', LL.radicand(m.dist_obs) == q))
+        if isinstance(st, tuple) and m.obs_ne == 0:
+            cl.append((f'matched_point_of_[{i}:{m.label}]_is_the_projection_on_that_edge', z3.BoolVal(pname(m.edge_m.pi) == pt_m)))
+            cl.append((f'relative_position_of_[{i}:{m.label}]_belongs_to_that_projection', E.lift(m.edge_m.ti) == ti))
     return cl
 
 
 def abs_witness(ctx):
     lb = ctx['mt'].lattice_best or []
-    return (['abs_nonempty'] if lb else []) + (['abs_nonemitting_on_best_path'] if any(m.obs_ne for m in lb) else [])
+    jumped = any(a.shortkey != b.shortkey and isinstance(a.shortkey, tuple) and isinstance(b.shortkey, tuple) and a.shortkey[1] != b.shortkey[0] for a, b in zip(lb, lb[1:]))
+    return (['abs_jump_on_best_path'] if jumped else []) + (['abs_nonempty'] if lb else []) + (['abs_nonemitting_on_best_path'] if any(m.obs_ne for m in lb) else [])
 
 
 ALLSYM = dict(sym_maxdist=True, sym_init=True, sym_minprob=True)
@@ -206,13 +230,19 @@ def abs_instances(tier):
         out.append(('oneway4', NAMED['oneway4'], dict(fam=fam, T=2, ne=True, sym_maxdist=True, sym_init=False, sym_minprob=False), [('match', 2)], {}))
         out.append(('oneway3', NAMED['oneway3'], dict(fam=fam, T=3, ne=False, width=1, sym_maxdist=True, sym_init=False, sym_minprob=True), [('match', 3), ('widen', 2)], {}))
     out.append(('line2', NAMED['line2'], dict(fam='simple_n', T=2, ne=True, **ALLSYM), [('match', 2)], {}))
+    # jump over a gap: match stops early, continue_with_distance adds nearby edges, the extended match runs through the jumped state
+    gap = {"A": ["B"], "B": [], "C": ["D"], "D": []}
+    for fam in ('simple', 'dist'):
+        out.append(('gap2', gap, dict(fam=fam, T=3, ne=False, sym_maxdist=True, sym_init=False, sym_minprob=False), [('match', 3), ('continue', 1, 1), ('extend', 3)], {}))
     return out
 
 
 def run_instance(inst):
     if inst[0] == 'greal':
         return run_real(inst)
-    return gabs.run(inst, abs_claims, abs_witness)
+    # continue_with_distance after a COMPLETE match raises IndexError in best_last_matches: totality of that call is outside C05
+    # (and outside C17, which is about match()); such paths are counted as exception_outside_claim, as in C09
+    return gabs.run(inst, abs_claims, abs_witness, exc_is_violation=not any(o[0] == 'continue' for o in inst[3]))
 
 
 def main(tier):
